@@ -40,6 +40,9 @@ def members(rng):
     su = lambda n: b"\x8c" + bytes([n]) + b"b" * n + b"."  # noqa: E731
     bb = lambda n: b"B" + struct.pack("<I", n) + b"c" * n + b"."  # noqa: E731
     sb = lambda n: b"C" + bytes([n]) + b"d" * n + b"."  # noqa: E731
+    def _t(code, fmt, text):      # length-prefixed text opcode + STOP
+        raw = text.encode("utf-8", "surrogatepass")
+        return code.encode("latin-1") + struct.pack(fmt, len(raw)) + raw + b"."
     nat_lo, nat_hi = [], []
     for d, tag in genvalues.natural_pickles(rng, 40):
         if "unsupported" in tag or len(d) > 20000:
@@ -63,6 +66,10 @@ def members(rng):
         "globals": [b"cos\nsystem\n.", b"cpkg.sub\nf\n.", b"(K\x01imod\nCls\n.", b"\x80\x04\x8c\x02os\x8c\x06system\x93.",
                     b"c__builtin__\nset\n(]K\x01atR."],
         "natural_lo": nat_lo, "natural_hi": nat_hi,
+        "nonascii": [_t("\x8c", "B", s_) for s_ in ("caf\u00e9", "\u4e2d\u6587", "\U0001f600!", "\u00e9" * 127, "z\u0301" * 60)]
+                    + [_t("X", "<I", s_) for s_ in ("\u017elu\u0165ou\u010dk\u00fd", "\u20ac" * 300, "\ud800x")]
+                    + [_t("\x8d", "<Q", "\u4e2d" * 5), b"U\x03\xe9\xff\x80.", b"T\x02\x00\x00\x00\xc3\xa9.", b"V\\u00e9\xe9\n.",
+                       pickle.dumps(["caf\u00e9", {"\u4e2d": "\U0001f600"}], 2), pickle.dumps(("\u00e9\u00e8", "\u00e9\u00e8"), 4), pickle.dumps("\u00fc", 0)],
         "len8": [b"\x8d" + struct.pack("<Q", 3) + b"abc.", b"\x8e" + struct.pack("<Q", 0) + b".", b"\x8e" + struct.pack("<Q", 300) + b"g" * 300 + b".",
                  b"\x80\x04\x95" + struct.pack("<Q", 4) + b"K\x01\x85."],
     }
@@ -71,7 +78,7 @@ def members(rng):
 def stock_end(data):
     f = io.BytesIO(data)
     try:
-        pickle.Unpickler(f, ).load()
+        pickle.Unpickler(f, encoding="bytes").load()      # (8-bit strings with high bytes: do not decode)
     except Exception:  # noqa: BLE001 - the first pickle may name things that do not exist; use the pure-Python reader then
         from ..refvm import _Rec
         f = io.BytesIO(data)
@@ -123,6 +130,23 @@ def run_case(fk, c, M, rng, idx):
     if c["kind"] == "file":
         src.close()
         os.remove(path)
+    # the checked loader is a parse of the same stream: when it returns the first object, the stream is where the stock
+    # unpickler would have left it (judged on seekable streams; nothing but LIKELY_SAFE data is ever loaded)
+    ld = {"ran": False, "returned": False, "pos_after": -1, "rest_len": -1, "rest_is_tail": False, "exc": ""}
+    if c["kind"] in ("seekable", "buffered"):
+        import fickling
+        s2 = io.BytesIO(data) if c["kind"] == "seekable" else io.BufferedReader(io.BytesIO(data))
+        s2.seek(c["offset"])
+        ld["ran"] = True
+        try:
+            fickling.load(s2)
+            ld["returned"] = True
+            ld["pos_after"] = s2.tell()
+            rest = s2.read()
+            ld.update(rest_len=len(rest), rest_is_tail=rest == body[len(parts[0]):])
+        except Exception as e:  # noqa: BLE001 - refused or unloadable: nothing is claimed about the position
+            ld["exc"] = type(e).__name__
+    rec["loader"] = ld
     stack = {"ran": c["trail"] == "none", "ok": False, "n": -1, "part_lens": [], "parts_are_slices": False, "concat_is_input": False}
     if stack["ran"]:
         src2 = body if c["kind"] == "bytes" else (NoSeek(body) if c["kind"] == "nonseekable" else
